@@ -291,6 +291,8 @@ func (st *Schema) setPK(cols []IndexColumn) bool {
 	st.PK = cols
 	for i, ind := range st.Indexes {
 		if sameIndexColumns(ind.Columns, cols) {
+			// the index exists already: it keeps its own sort order
+			st.PK = ind.Columns
 			st.Indexes = append(st.Indexes[:i], st.Indexes[i+1:]...)
 			if len(st.Indexes) == 0 {
 				st.Indexes = nil // to make test diffs easier
